@@ -90,5 +90,39 @@ func init() {
 		Reach: []string{"index-rebuilt", "uf:hash-collision", "absent", "present", "empty-key-present"}}
 	addProp(&Prop{ID: "C09", DesignRef: "DESIGN.md §4 C09", Runs: []HarnessRun{qKey, noIndex},
 		Assumptions: []string{"FNV-1a-64 is an uninterpreted function: the solver is free to make any two keys collide"}})
+	lenCount := func(name string) func(map[string]int) int {
+		return func(b map[string]int) int {
+			if b["all_"+name] == 1 {
+				return 301
+			}
+			return 10
+		}
+	}
+	two := func(map[string]int) int { return 2 }
+	codecSplit := []SplitDim{{"v1", two}, {"klen", lenCount("klen")}, {"vlen", lenCount("vlen")}}
+	roundTrip := HarnessRun{Name: "h_codec.RoundTrip", Quick: B{}, Thorough: B{"all_klen": 1}, Split: codecSplit, Reach: []string{"roundtrip"}}
+	roundTrip2 := HarnessRun{Name: "h_codec.RoundTrip", Quick: B{"all_vlen": 1, "quick_skip": 1}, Thorough: B{"all_vlen": 1}, Split: codecSplit, Reach: []string{"roundtrip"}}
+	cross := HarnessRun{Name: "h_codec.Cross", Quick: B{}, Thorough: B{"all_klen": 1}, Split: codecSplit, Reach: []string{"cross"}}
+	idxFmt := HarnessRun{Name: "h_codec.IndexFormat", Quick: B{"items": 3}, Thorough: B{"items": 6},
+		Split: []SplitDim{{"v1", two}, {"times", two}, {"keys", two}}, Reach: []string{"index"}}
+	qStat := HarnessRun{Name: "h_log.QueryStat", Quick: dirQ, Thorough: dirT, Split: layoutSplit, Reach: []string{"stat", "multi-segment", "single-empty-segment"}}
+	addProp(&Prop{ID: "C13", DesignRef: "DESIGN.md §4 C13", Runs: []HarnessRun{roundTrip, roundTrip2, cross, idxFmt, qStat},
+		Assumptions: []string{"CRC32C is an uninterpreted function of the byte string (equal byte ranges => equal CRC; nothing else)", "key/value lengths: quick {0,1,2,3,7,8,9,255,256,300}^2; thorough every length 0..300 in one dimension against the ten lengths in the other; longer payloads outside the claim"}})
+	recSplit := []SplitDim{{"v1", two}, {"n", same("recs")}, {"prof", same("profs")}, {"times", two}, {"keys", two}}
+	recQ := B{"recs": 2, "profs": 2}
+	recT := B{"recs": 3, "profs": 3}
+	truncated := HarnessRun{Name: "h_recover.Truncated", Quick: recQ, Thorough: recT, Split: recSplit,
+		Reach: []string{"clean", "cut-to-zero", "cut-inside-record-header", "cut-inside-record-data"}}
+	byteChanged := HarnessRun{Name: "h_recover.ByteChanged", Quick: B{"recs": 2, "profs": 1, "append_after": 1}, Thorough: B{"recs": 3, "profs": 2, "append_after": 1},
+		Split: []SplitDim{{"v1", func(map[string]int) int { return 1 }}, {"n", same("recs")}, {"prof", same("profs")}, {"times", two}, {"keys", two}, {"index", two},
+			{"region", func(b map[string]int) int { return 8 * b["recs"] }}},
+		Reach: []string{"byte-changed"}}
+	indexDamage := HarnessRun{Name: "h_recover.IndexDamage", Quick: recQ, Thorough: recT,
+		Split: append(append([]SplitDim{}, recSplit...), SplitDim{"kind", func(map[string]int) int { return 3 }}),
+		Reach: []string{"index-truncated", "index-byte-changed", "index-extra-item"}}
+	addProp(&Prop{ID: "C07", DesignRef: "DESIGN.md §4 C07", Runs: []HarnessRun{truncated, byteChanged, indexDamage},
+		Assumptions: []string{"ReadAt follows its documented contract: n = min(len(p), max(0, size-off)) and io.EOF iff n < len(p) (never io.ErrUnexpectedEOF)",
+			"CRC32C is an uninterpreted function; a changed record is assumed not to verify by an accidental checksum collision (probability 2^-32)",
+			"message times never decrease with offset and are not before 1970 when a time index is configured"}})
 	addProp(&Prop{ID: "C12", DesignRef: "DESIGN.md §4 C12", Runs: []HarnessRun{minOff}})
 }
